@@ -620,7 +620,11 @@ func (c *Config) Clone() *Config {
 // returned by a GetConfigForClient callback then the argument should be the
 // Config that was passed to Server, otherwise it should be nil.
 func (c *Config) serverInit(originalConfig *Config) {
-	if c.SessionTicketsDisabled || len(c.ticketKeys()) != 0 {
+	// Hold the lock over the emptiness check and the assignment below: a concurrent
+	// SetSessionTicketKeys must neither race with nor be overwritten by the default key.
+	c.mutex.Lock()
+	defer c.mutex.Unlock()
+	if c.SessionTicketsDisabled || len(c.sessionTicketKeys) != 0 {
 		return
 	}
 
@@ -641,7 +645,7 @@ func (c *Config) serverInit(originalConfig *Config) {
 		}
 	}
 
-	if originalConfig != nil {
+	if originalConfig != nil && originalConfig != c {
 		originalConfig.mutex.RLock()
 		c.sessionTicketKeys = originalConfig.sessionTicketKeys
 		originalConfig.mutex.RUnlock()
